@@ -102,8 +102,9 @@ func cmdPublishSame(args []string) {
 				name := fmt.Sprintf("%s/auto=%v/n=%d", kind, auto, n)
 				rep := mk(auto, kind)
 				m := &sse.Message{Type: sse.Type("t")}
-				m.AppendData("hello", "two\nlines")
-				m.AppendComment("c")
+				for c := 0; c < n; c++ { // n chunks: the chunk slice has spare capacity for n = 3, 5, 6
+					m.AppendData("chunk" + strconv.Itoa(c))
+				}
 				if !auto {
 					m.ID = sse.ID("fixed")
 				}
@@ -127,6 +128,14 @@ func cmdPublishSame(args []string) {
 				res.nontrivial(name)
 				if m.String() != before || (auto && m.ID.IsSet()) {
 					res.violate(fmt.Sprintf("%s: Put modified the caller's message: %q -> %q", name, before, m.String()), "publish:mutated", nil)
+				}
+				// appending to a returned publication and to the caller's message must not interfere
+				if o, err := rep.Put(m, []string{sse.DefaultTopic}); err == nil && o != nil && auto {
+					o.AppendData("on-the-copy")
+					m.AppendData("on-the-caller")
+					if !strings.Contains(o.String(), "on-the-copy") || strings.Contains(o.String(), "on-the-caller") || strings.Contains(m.String(), "on-the-copy") {
+						res.violate(fmt.Sprintf("%s: the publication returned by Put and the caller's message share state: copy %q, caller %q", name, o.String(), m.String()), "publish:aliased", nil)
+					}
 				}
 				// appending to the caller's message afterwards must not change what was stored
 				m.AppendData("later")
